@@ -12,8 +12,10 @@ def kvs(r): return dict(x.split('=', 1) for x in r.split(' ')[1:])
 SWEEP = []      # when non-empty: payload lengths are taken from here in order (length sweeps)
 
 def payload(r, sizes=None):
+    sweeping = bool(SWEEP)
     n = SWEEP.pop(0) if SWEEP else r.choice(sizes or [0, 0, 1, 2, 3, 7, 8, 9, 31, 32, 33, 255, 256, 1471, 1472, 1473])
     k = r.below(5)
+    if sweeping and k < 2: k = 3          # a length sweep is about the length: content that sums to nothing would hide a skipped word
     if k == 0: b = bytes(n)
     elif k == 1: b = b'\xff' * n
     elif k == 2: b = bytes([0xff, 0xfe] * (n // 2) + [0xff] * (n % 2))   # sums that carry
@@ -140,6 +142,40 @@ class Scen:
                         a = dict(src=ucl[0], dst=usv[0], sport=ucl[1], dport=usv[1]) if who else dict(src=usv[0], dst=ucl[0], sport=usv[1], dport=ucl[1])
                         self.emit('%s.%s_dgram(%s)' % (u, 'client' if who else 'server', ', '.join(args)),
                                   [dict(a, proto=17, id=0, ttl=64, off=fo, evil=False, df=False, mf=False, l4=('udp', cs), eth='ip', plen=n)])
+    def addrsum(self, proto):
+        """flows whose two addresses ADD UP to each of a ladder of values just below 2^32 (a partial sum kept in 32 bits loses its
+        carry there), one message in each direction"""
+        r = self.r
+        base = dict(id=0, ttl=64, off=0, evil=False, df=False, mf=False, eth='ip')
+        for target in list(range(0xffe80000, 0x100000000, 0x8000)) + [0xffffffff, 0xfffffffe, 0x100000000 - (proto << 16), 0x100000000 - (proto << 16) - 1]:
+            sv = r.below(2 ** 32); cl = (target - sv) % 2 ** 32
+            self.n += 1
+            if proto == 6:
+                f = 't%d' % self.n
+                self.decl.append('let %s = ipv4::tcp::flow(%s:%d, %s:%d%s);' % (f, ip(cl), r.below(65536), ip(sv), 80, self.rawarg()))
+                b = payload(r, [0, 1, 8, 9])
+                self.emit('%s.client_message(%s)' % (f, lit(b)), [dict(base, src=cl, dst=sv, proto=6, l4='tcp'), dict(base, src=sv, dst=cl, proto=6, l4='tcp')])
+            else:
+                f = 'u%d' % self.n; cp, sp = r.below(65536), r.below(65536)
+                self.decl.append('let %s = ipv4::udp::flow(%s:%d, %s:%d%s);' % (f, ip(cl), cp, ip(sv), sp, self.rawarg()))
+                b = payload(r, [0, 1, 8, 9])
+                self.emit('%s.client_dgram(%s)' % (f, lit(b)), [dict(base, src=cl, dst=sv, sport=cp, dport=sp, proto=17, l4=('udp', True), plen=len(b))])
+                self.emit('%s.server_dgram(%s)' % (f, lit(b)), [dict(base, src=sv, dst=cl, sport=sp, dport=cp, proto=17, l4=('udp', True), plen=len(b))])
+    def fragedge(self):
+        """for payloads with a partial last block: the request that ends exactly on the last FULL block (more fragments follow) and
+        the partial block itself (none follow), for every split point"""
+        r = self.r
+        for n in (9, 12, 15, 17, 31, 100, 1481):
+            s_, d_ = addr(r), addr(r)
+            o = dict(id=r.below(65536), evil=False, df=False, ttl=64, proto=17)
+            b = r.bytes(n)
+            self.n += 1; f = 'g%d' % self.n
+            self.decl.append('let %s = ipv4::frag(%s, %s, id: %d, %s);' % (f, ip(s_), ip(d_), o['id'], lit(b)))
+            q = n // 8
+            for a in sorted(set([0, q // 2, q - 1, q]) - {-1}):
+                if a < q: self.emit('%s.fragment(%d, %d%s)' % (f, a, q - a, self.rawarg()), [dict(src=s_, dst=d_, off=a, mf=True, l4=None, eth='ip', **o)])
+            self.emit('%s.fragment(%d, 1%s)' % (f, q, self.rawarg()), [dict(src=s_, dst=d_, off=q, mf=False, l4=None, eth='ip', **o)])
+            self.emit('%s.tail(%d%s)' % (f, q, self.rawarg()), [dict(src=s_, dst=d_, off=q, mf=False, l4=None, eth='ip', **o)])
     def drop_empty(self, stmt):
         """an empty payload may also be given by passing no payload argument at all"""
         if '.echo' in stmt or not self.r.chance(1, 2): return stmt
@@ -291,6 +327,9 @@ def build(r, raw, kinds=None, quick=True):
         else: s.tcp(96)
         del SWEEP[:]
     elif k == 'opt-grid': s.optgrid()
+    elif k == 'addr-sum-tcp': s.addrsum(6)
+    elif k == 'addr-sum-udp': s.addrsum(17)
+    elif k == 'frag-edge': s.fragedge()
     elif k == 'icmp-long': s.icmp(150)          # long histories: a wide sample of checksum values per segment kind
     elif k == 'udp-long': s.udp(100)
     elif k == 'tcp-long': s.tcp(80)
